@@ -305,6 +305,23 @@ def run(ctx) -> None:
                     "the proper reply from the addressed device carrying the same context was not recognised as the reply",
                     {"cmd": cmd, "reply": reply, "send_cmd_returned": got, "returns": [e for e in h["events"] if e["ev"] == "return"]},
                 )
+            # the same reply when it overtakes the echo (RF replies can be read before the stick's own echo),
+            # and when the echo is lost altogether: still the proper reply, still to be recognised
+            early = [("reply-overtakes-echo", [{"echo": ["abs", 0.004], "reply": ["before", 0]}]), ("echo-lost", [{"echo": None, "reply": ["abs", 0.02]}])]
+            if code == "1FC9" or (code == "0418" and reply.split(" ")[-1] == NULL_0418):
+                early = []  # 1FC9: recorded findings (never recognised); the 0418 null entry carries no context at all
+            for how, script in early:
+                ep = {"disable_qos": False, "no_probe": True, "quiet": 0.1, "callers": [{**base, "wait_for_reply": True, "max_retries": 0, "script": script}]}
+                got, h = accepts(ctx, ep)
+                ctx.ev()
+                ctx.count("episodes.pos_reply_early")
+                ctx.seen(sig + "|" + how)
+                if got != reply:
+                    ctx.violate(
+                        f"C06|reply-not-recognised|{how}|{code}|{verb}",
+                        "the proper reply was not recognised as the reply when it was read before the echo",
+                        {"cmd": cmd, "reply": reply, "how": how, "send_cmd_returned": got, "returns": [e for e in h["events"] if e["ev"] == "return"]},
+                    )
         if len(ctx.samples) < 5:
             ctx.sample({"cmd": cmd, "echo": echo, "reply": reply, "source": tag})
         # near-miss echo ------------------------------------------------------------
